@@ -778,6 +778,42 @@ func c03NonFinite(r *engine.Run) {
 		}
 	}
 	r.Bound(fmt.Sprintf("NaN/+Inf/-Inf in every ordinate position of every S(1,2) shape × 4 ctypes (%d cases): X/Y must be rejected, Z/M must not", n))
+	// both ordinates of one control point special at once: every (X,Y) over non-finite values and
+	// extreme finite ones. Rejected iff X or Y is non-finite; for point types the extreme finite
+	// combinations must be accepted (lines and rings there are outside the float domain, §9.14)
+	vals := []float64{math.NaN(), math.Inf(1), math.Inf(-1), math.MaxFloat64, -math.MaxFloat64, 1e308, -1e308, 5e-324, 0}
+	m := 0
+	for _, s := range shapes {
+		for _, ct := range []geom.CoordinatesType{geom.DimXY, geom.DimXYZM} {
+			base := universe.Build(s, ct, &universe.CellSupplier{})
+			dim := ct.Dimension()
+			npts := base.DumpCoordinates().Length()
+			pointy := base.Dimension() == 0
+			for pt := 0; pt < npts; pt++ {
+				for _, vx := range vals {
+					for _, vy := range vals {
+						k := 0
+						g := universe.Build(s, ct, &poisonSupplier{inner: &universe.CellSupplier{}, ct: ct, pos: pt * dim, bad: vx, pos2: pt*dim + 1, bad2: vy, two: true, k: &k})
+						finite := !math.IsNaN(vx) && !math.IsInf(vx, 0) && !math.IsNaN(vy) && !math.IsInf(vy, 0)
+						r.States.Add(1)
+						r.Evaluations.Add(1)
+						r.Transitions.Add(1)
+						m++
+						ok, msg, pnc := libValid(g)
+						c := map[string]interface{}{"shape": s.String(), "ctype": ct.String(), "point": pt, "x": fmt.Sprint(vx), "y": fmt.Sprint(vy)}
+						if pnc != nil {
+							r.Violation("C03/nonfinite.pair.panic", "nonfinite2", c, fmt.Sprint(pnc))
+						} else if !finite && ok {
+							r.Violation("C03/nonfinite.pair.acceptsXY", "nonfinite2", c, "")
+						} else if finite && pointy && !ok {
+							r.Violation("C03/nonfinite.pair.rejectsFiniteXY", "nonfinite2", c, msg)
+						}
+					}
+				}
+			}
+		}
+	}
+	r.Bound(fmt.Sprintf("every (X,Y) over {NaN,±Inf,±MaxFloat64,±1e308,5e-324,0}² at every control point of every S(1,2) shape × {XY,XYZM} (%d cases)", m))
 }
 
 // poisonSupplier replaces the pos-th ordinate (counted in ct's layout over the
@@ -788,6 +824,9 @@ type poisonSupplier struct {
 	pos   int
 	bad   float64
 	k     *int
+	two   bool
+	pos2  int
+	bad2  float64
 }
 
 func (p *poisonSupplier) Prim(idx int, kind byte, ring int, n int) []geom.Coordinates {
@@ -795,6 +834,11 @@ func (p *poisonSupplier) Prim(idx int, kind byte, ring int, n int) []geom.Coordi
 	dim := p.ct.Dimension()
 	for i := range cs {
 		for d := 0; d < dim; d++ {
+			if p.two && *p.k == p.pos2 {
+				if d == 1 {
+					cs[i].Y = p.bad2
+				}
+			}
 			if *p.k == p.pos {
 				switch {
 				case d == 0:
